@@ -56,13 +56,13 @@ def seeded_table(out):
                'green and ships a demonstration that fails with the change and passes '
                'without it (confirmed in a scratch worktree). `caught by` is what the '
                'checks printed with the patch applied to /repo; `missed` rows say why.\n')
-    out.append('| seeded | property | change | needs to manifest | caught by |')
-    out.append('|---|---|---|---|---|')
+    out.append('| seeded | property | change | needs to manifest | caught by | first run and what was changed |')
+    out.append('|---|---|---|---|---|---|')
     for p in sorted(glob.glob(os.path.join(ROOT, 'seeded', '*', 'meta.json'))):
         m = json.load(open(p))
-        out.append('| %s | %s | %s | %s | %s |' % (
+        out.append('| %s | %s | %s | %s | %s | %s |' % (
             os.path.basename(os.path.dirname(p)), m['property'], esc(m.get('change', '')),
-            esc(m.get('needs', '')), esc(m.get('caught_by', ''))))
+            esc(m.get('needs', '')), esc(m.get('caught_by', '')), esc(m.get('history', ''))))
     out.append('')
 
 
